@@ -7,6 +7,7 @@ import common
 ID = "C12"
 LEVEL = "proof"
 PROPS = "Props/C12.vo"
+USES_TRANSLATOR = True      # coq/gen/GenIP.v (harness/translate.py) is part of this property's model
 MODEL_TARGETS = ["Corr/C12.vo"]
 OBLIGATION_FILES = ["Props/C12.v", "gen/GenOK12.v"]
 ANCHORS = [("ciscoconfparse2/ccp_util.py", "IPv4Obj.__contains__"), ("ciscoconfparse2/ccp_util.py", "IPv6Obj.__contains__"),
